@@ -137,3 +137,95 @@ def SegwitDec(inp, tab, ev):
         ev["res"] = {"ok": False, "exc": "None"}
     else:
         ev["res"] = res_of(ok, v, lambda t: {"ver": t[0], "prog": list(t[1])})
+
+
+# ------------------------------------------------------------------ C17 paths
+def idx_json(v):
+    """child number -> 4 big-endian bytes, or [-1] when it is not a 32-bit number."""
+    if isinstance(v, int) and not isinstance(v, bool) and 0 <= v < 2 ** 32:
+        return B(v.to_bytes(4, "big"))
+    return [-1]
+
+
+def node_json(n):
+    """projection of a Prv/PubKeyNode to the abstract node record"""
+    from btc_hd_wallet.bip32 import PrvKeyNode
+    d = {"c": B(n.chain_code), "depth": n.depth, "idx": idx_json(n.index), "pfp": B(n.parent_fingerprint),
+         "net": "test" if n.testnet else "main", "prv": type(n) is PrvKeyNode}
+    if type(n) is PrvKeyNode:
+        d["k"] = B(bytes(n.private_key))
+    d["K"] = B(n.public_key.sec())
+    return d
+
+
+def ref_parse_path(s):
+    """Harness-side reading of a path string, used ONLY to decide which
+    iterated-derivation tables to attach (candidate index lists)."""
+    toks = s.split("/")
+    out = []
+    for t in toks[1:]:
+        hard = t[-1:] in ("'", "h")
+        body = t[:-1] if hard else t
+        if not body or not all("0" <= c <= "9" for c in body):
+            return None
+        v = int(body)
+        if v >= 2 ** 32 or (hard and v >= 2 ** 31):
+            return None
+        out.append(v + (2 ** 31 if hard else 0))
+    return out
+
+
+WALLETS = {}
+
+
+def fixed_wallet(name):
+    """deterministic wallets shared by path / derivation events: name = '<net>:<seedhex>'"""
+    from btc_hd_wallet import PaperWallet
+    if name not in WALLETS:
+        net, seed = name.split(":")
+        WALLETS[name] = PaperWallet.from_bip39_seed_hex(seed, testnet=(net == "test"))
+    return WALLETS[name]
+
+
+def fresh_wallet(name):
+    from btc_hd_wallet import PaperWallet
+    net, seed = name.split(":")
+    return PaperWallet.from_bip39_seed_hex(seed, testnet=(net == "test"))
+
+
+@act
+def PathParse(inp, tab, ev):
+    from btc_hd_wallet.wallet_utils import Bip32Path
+    ok, v = call(lambda: Bip32Path.parse(untext(inp)))
+    if ok:
+        ok, v = call(lambda: {"list": [idx_json(x) for x in v.to_list()], "str": T(str(v)), "private": bool(v.private)})
+    ev["res"] = res_of(ok, v)
+
+
+@act
+def ByPath(inp, tab, ev):
+    s = untext(inp["path"])
+    w = fixed_wallet(inp["wallet"])
+    ok, v = call(w.by_path, s)
+    ev["res"] = res_of(ok, v, lambda n: {"node": node_json(n), "repr": T(str(n))})
+    folds = []
+    cand = ref_parse_path(s)
+    lists = []
+    if cand is not None:
+        lists.append(cand)
+        if len(cand) > 5:
+            lists.append(cand[:5])
+    else:
+        head = "/".join(s.split("/")[:6])
+        c5 = ref_parse_path(head)
+        if c5 is not None and len(s.split("/")) > 6:
+            lists.append(c5)
+    for l in lists:
+        node = fresh_wallet(inp["wallet"]).master
+        try:
+            for i in l:
+                node = node.ckd(i)
+            folds.append({"list": [idx_json(i) for i in l], "node": node_json(node)})
+        except Exception:
+            pass
+    ev["fold"] = folds
